@@ -159,15 +159,15 @@ var ruleOf = map[string]string{
 }
 
 type keptExt struct {
-	count         uint32
-	hashes        []pmtref.Hash
-	flags         []byte
-	e             ext
-	items         []uint32
-	matches       []pmtref.Hash
-	lastCount     uint32
-	lastHashes    []pmtref.Hash
-	lastFlags     []byte
+	count      uint32
+	hashes     []pmtref.Hash
+	flags      []byte
+	e          ext
+	items      []uint32
+	matches    []pmtref.Hash
+	lastCount  uint32
+	lastHashes []pmtref.Hash
+	lastFlags  []byte
 }
 
 var keptExts []keptExt
